@@ -112,7 +112,15 @@ def step' : Step RState := fun rs fs implLine =>
           -- first guess: the order in which the woken streams first wrote something in the implementation's answer
           let seen := (impl.frames.filterMap fun f => match f with | .data id _ _ _ => some id | _ => none).eraseDups
           let guess := (seen.filter (w.contains ·)) ++ (w.filter (!seen.contains ·))
-          Op.settings ss guess :: (if w.length ≤ 4 then (perms w).map (Op.settings ss ·) else [op])
+          -- woken streams that wrote nothing: those the implementation has parked again (state waiting) were visited while there was
+          -- still connection quota, i.e. early; those still on the list were not reached
+          let parked := w.filter fun id => !seen.contains id ∧
+            (impl.streams.any fun st => st.id == id ∧ st.state == stateNum .waiting)
+          let unreached := w.filter fun id => !seen.contains id ∧ !parked.contains id
+          -- … in the order in which they still sit on the implementation's list
+          let unreached := (impl.active.filter (unreached.contains ·)) ++ (unreached.filter (!impl.active.contains ·))
+          let guess2 := parked ++ (seen.filter (w.contains ·)) ++ unreached
+          Op.settings ss guess2 :: Op.settings ss guess :: (if w.length ≤ 5 then (perms w).map (Op.settings ss ·) else [op])
         | _ => [op]
       let results := cands.map fun o => bigStep rs1 o
       let r := match results.find? (fun r => showBig r == implLine) with
